@@ -8,8 +8,8 @@ package message
 // conditions and also run by replay tests). Nothing here is compiled into a
 // normal build.
 
-//@ property C04 roots readLPBytes, (*header).decode, (*PubackMessage).Decode
-//@ property C03 roots (*header).encode, (*header).msglen, writeLPBytes, (*header).SetRemainingLength, (*header).PacketID, (*header).SetPacketID, (*header).SetType, (*PubackMessage).Len, (*PubackMessage).Encode, (*PubackMessage).Decode, (*PubackMessage).msglen
+//@ property C04 roots readLPBytes, (*header).decode, (*PubackMessage).Decode, (*ConnackMessage).Decode, (*DisconnectMessage).Decode, (*SubackMessage).Decode
+//@ property C03 roots (*header).encode, (*header).msglen, writeLPBytes, (*header).SetRemainingLength, (*header).PacketID, (*header).SetPacketID, (*header).SetType, (*PubackMessage).Len, (*PubackMessage).Encode, (*PubackMessage).Decode, (*PubackMessage).msglen, (*ConnackMessage).Len, (*ConnackMessage).Encode, (*ConnackMessage).Decode, (*DisconnectMessage).Decode, (*SubackMessage).Decode, (*DisconnectMessage).Encode, (*header).Len, (*SubackMessage).Len, (*SubackMessage).Encode, (*SubackMessage).Decode, (*SubackMessage).AddReturnCodes, (*SubackMessage).AddReturnCode
 
 // ---------------------------------------------------------------- spec functions
 
@@ -250,6 +250,11 @@ func vspecUvK(b []byte) int {
 //@   requires len(h.mtypeflags) == 1
 //@   ensures result == Type(h.mtypeflags[0] >> 4)
 
+//@ func (*header).Name
+//@   trusted
+//@   pure
+//@   requires len(h.mtypeflags) == 1
+
 //@ func (*header).Flags
 //@   pure
 //@   requires len(h.mtypeflags) >= 1
@@ -369,3 +374,137 @@ func vspecPacketID(p []byte) int {
 	}
 	return 0
 }
+
+// ---------------------------------------------------------------- CONNACK (MQTT 3.2)
+
+func vspecConnackLen(m *ConnackMessage) int {
+	if !m.dirty {
+		return len(m.dbuf)
+	}
+	return 4
+}
+
+func vspecB2I(b bool) byte {
+	if b {
+		return 1
+	}
+	return 0
+}
+
+//@ func (ConnackCode).Value
+//@   pure
+//@   ensures result == byte(cc)
+
+//@ func (*ConnackMessage).msglen
+//@   pure
+//@   ensures result == 2
+
+//@ func (*ConnackMessage).Len
+//@   ensures[C03:len] result == old(vspecConnackLen(m))
+//@   ensures !old(m.dirty) ==> m.remlen == old(m.remlen) && !m.dirty
+//@   ensures old(m.dirty) ==> m.remlen == 2 && m.dirty
+//@   modifies m.remlen, m.dirty
+
+//@ func (*ConnackMessage).Decode
+//@   results n, err
+//@   strictslice
+//@   requires len(m.mtypeflags) == 1
+//@   ensures[C04:count] 0 <= n && n <= len(src)
+//@   ensures[C04:inside] err == nil ==> within(m.mtypeflags, src, n) && within(m.dbuf, src, n)
+//@   ensures[C04:accept] vspecHdrOK(src, old(Type(m.mtypeflags[0]>>4))) && vspecVarintVal(src, 1) == 2 && src[vspecH(src)] <= 1 && src[vspecH(src)+1] <= 5 ==> err == nil
+//@   ensures[C03:fields] err == nil ==> n == vspecH(src)+2 && vspecVarintVal(src, 1) == 2 && src[vspecH(src)] == vspecB2I(m.sessionPresent) && byte(m.returnCode) == src[vspecH(src)+1] && m.returnCode <= 5
+//@   ensures[C03:clean] err == nil ==> !m.dirty && sameslice(m.dbuf, src[:n]) && sameslice(m.mtypeflags, src[0:1])
+//@   modifies m.remlen, m.mtypeflags, m.dbuf, m.dirty, m.sessionPresent, m.returnCode
+
+//@ func (*ConnackMessage).Encode
+//@   results n, err
+//@   requires len(m.mtypeflags) == 1
+//@   ensures[C03:len] err == nil ==> n == old(vspecConnackLen(m)) && n <= len(dst)
+//@   ensures[C03:clean] err == nil && !old(m.dirty) ==> eqold(dst[:n], m.dbuf)
+//@   ensures[C03:wire] err == nil && old(m.dirty) ==> n == 4 && dst[0] == old(m.mtypeflags[0]) && dst[1] == 2 && dst[2] == vspecB2I(m.sessionPresent) && dst[3] == byte(m.returnCode) && m.returnCode <= 5
+//@   ensures[C03:accept] old(m.dirty) && len(dst) >= 7 && m.returnCode <= 5 && old(m.mtypeflags[0]) >= 16 && old(m.mtypeflags[0]) < 240 ==> err == nil
+//@   modifies elems(dst, 0, n), m.remlen, m.dirty
+
+// ---------------------------------------------------------------- DISCONNECT, PINGREQ, PINGRESP (MQTT 3.12-3.14): header only
+
+//@ func (*header).Len
+//@   pure
+//@   ensures result == 1+vspecVarintLen(int(h.remlen))
+
+//@ func (*DisconnectMessage).Decode
+//@   results n, err
+//@   strictslice
+//@   requires len(m.mtypeflags) == 1
+//@   ensures[C04:count] 0 <= n && n <= len(src)
+//@   ensures[C04:inside] err == nil ==> within(m.mtypeflags, src, n) && within(m.dbuf, src, n)
+//@   ensures[C04:accept] vspecHdrOK(src, old(Type(m.mtypeflags[0]>>4))) && vspecVarintVal(src, 1) == 0 ==> err == nil
+//@   ensures[C03:fields] err == nil ==> n == vspecH(src) && vspecVarintVal(src, 1) == 0 && m.remlen == 0 && sameslice(m.mtypeflags, src[0:1])
+//@   ensures[C03:clean] err == nil ==> sameslice(m.dbuf, src[:n])
+//@   modifies m.remlen, m.mtypeflags, m.dbuf
+
+//@ func (*DisconnectMessage).Encode
+//@   results n, err
+//@   requires len(m.mtypeflags) == 1
+//@   requires m.remlen == 0 && m.dirty
+//@   ensures[C03:len] err == nil ==> n == 2 && n <= len(dst)
+//@   ensures[C03:clean] err == nil && !old(m.dirty) ==> eqold(dst[:n], m.dbuf)
+//@   ensures[C03:wire] err == nil && old(m.dirty) ==> dst[0] == old(m.mtypeflags[0]) && dst[1] == 0
+//@   ensures[C03:accept] old(m.dirty) && len(dst) >= 2 && old(m.mtypeflags[0]) >= 16 && old(m.mtypeflags[0]) < 240 ==> err == nil
+//@   modifies elems(dst, 0, n)
+
+// ---------------------------------------------------------------- SUBACK (MQTT 3.9)
+
+func vspecSubackLen(m *SubackMessage) int {
+	if !m.dirty {
+		return len(m.dbuf)
+	}
+	return 1 + vspecVarintLen(2+len(m.returnCodes)) + 2 + len(m.returnCodes)
+}
+
+func vspecRetCodeOK(c byte) bool { return c == 0 || c == 1 || c == 2 || c == 128 }
+
+//@ func (*SubackMessage).msglen
+//@   pure
+//@   ensures result == 2+len(m.returnCodes)
+
+//@ func (*SubackMessage).Len
+//@   requires len(m.returnCodes) <= 1000000000
+//@   ensures[C03:len] 2+len(m.returnCodes) <= 268435455 ==> result == old(vspecSubackLen(m))
+//@   ensures !old(m.dirty) ==> m.remlen == old(m.remlen) && !m.dirty
+//@   ensures old(m.dirty) && 2+len(m.returnCodes) <= 268435455 ==> int(m.remlen) == 2+len(m.returnCodes) && m.dirty
+//@   modifies m.remlen, m.dirty
+
+//@ func (*SubackMessage).Decode
+//@   results n, err
+//@   strictslice
+//@   requires len(m.mtypeflags) == 1
+//@   loop 1 invariant -1 <= rangeindex && sameslice(m.returnCodes, old(src)[vspecH(src)+2:vspecH(src)+int(m.remlen)]) && samearr(src)
+//@   loop 1 invariant forall(0, rangeindex+1, func(i int) bool { return vspecRetCodeOK(m.returnCodes[i]) })
+//@   loop 1 decreases len(m.returnCodes) - rangeindex
+//@   ensures[C04:count] 0 <= n && n <= len(src)
+//@   ensures[C04:inside] err == nil ==> within(m.mtypeflags, src, n) && within(m.dbuf, src, n) && within(m.packetID, src, n) && within(m.returnCodes, src, n)
+//@   ensures[C04:accept] vspecHdrOK(src, old(Type(m.mtypeflags[0]>>4))) && vspecVarintVal(src, 1) >= 2 && forall(vspecH(src)+2, vspecH(src)+vspecVarintVal(src, 1), func(i int) bool { return vspecRetCodeOK(src[i]) }) ==> err == nil
+//@   ensures[C03:fields] err == nil ==> n == vspecH(src)+int(m.remlen) && int(m.remlen) == vspecVarintVal(src, 1) && m.remlen >= 2 && sameslice(m.packetID, src[vspecH(src):vspecH(src)+2]) && sameslice(m.returnCodes, src[vspecH(src)+2:n]) && sameslice(m.mtypeflags, src[0:1])
+//@   ensures[C03:codes] err == nil ==> forall(0, len(m.returnCodes), func(i int) bool { return vspecRetCodeOK(m.returnCodes[i]) })
+//@   ensures[C03:clean] err == nil ==> !m.dirty && sameslice(m.dbuf, src[:n])
+//@   modifies m.remlen, m.mtypeflags, m.dbuf, m.dirty, m.packetID, m.returnCodes
+
+//@ func (*SubackMessage).Encode
+//@   results n, err
+//@   requires len(m.mtypeflags) == 1
+//@   requires len(m.packetID) == 0 || len(m.packetID) == 2
+//@   requires arr(dst) != arr(m.packetID) || len(m.packetID) != 2
+//@   requires arr(dst) != arr(m.returnCodes) || len(m.returnCodes) == 0
+//@   requires len(m.returnCodes) <= 1000000000
+//@   loop 1 invariant -1 <= rangeindex && forall(0, rangeindex+1, func(i int) bool { return vspecRetCodeOK(m.returnCodes[i]) })
+//@   loop 1 decreases len(m.returnCodes) - rangeindex
+//@   ensures[C03:len] err == nil ==> n == old(vspecSubackLen(m)) && n <= len(dst)
+//@   ensures[C03:clean] err == nil && !old(m.dirty) ==> eqold(dst[:n], m.dbuf)
+//@   ensures[C03:wire] err == nil && old(m.dirty) ==> dst[0] == old(m.mtypeflags[0]) && int(m.remlen) == 2+len(m.returnCodes)
+//@        && forall(0, vspecVarintLen(int(m.remlen)), func(k int) bool { return int(dst[1+k]) == vspecVarintByte(int(m.remlen), k) })
+//@        && vspecBE16(dst, 1+vspecVarintLen(int(m.remlen))) == old(vspecPacketID(m.packetID))
+//@        && eqbytes(dst[1+vspecVarintLen(int(m.remlen))+2:n], m.returnCodes)
+//@        && forall(0, len(m.returnCodes), func(i int) bool { return vspecRetCodeOK(m.returnCodes[i]) })
+//@   ensures[C03:accept] old(m.dirty) && len(dst) >= 5+2+len(m.returnCodes) && 2+len(m.returnCodes) <= 268435455 && old(m.mtypeflags[0]) >= 16 && old(m.mtypeflags[0]) < 240
+//@        && forall(0, len(m.returnCodes), func(i int) bool { return vspecRetCodeOK(m.returnCodes[i]) }) ==> err == nil
+//@   modifies elems(dst, 0, n), m.remlen, m.dirty
